@@ -567,7 +567,10 @@ class HTTP1Connection(httputil.HTTPConnection):
         if connection_header is not None:
             connection_header = connection_header.lower()
         if start_line.version == "HTTP/1.1":
-            return connection_header != "close"
+            # Connection is a comma-separated list of options.
+            return connection_header is None or "close" not in [
+                option.strip() for option in connection_header.split(",")
+            ]
         elif (
             "Content-Length" in headers
             or is_transfer_encoding_chunked(headers)
